@@ -587,6 +587,15 @@ func (d *Dir) StallFor(dur time.Duration) {
 	n.mu.Unlock()
 }
 
+// SetCapacity changes the send-buffer bound of this direction from now on (0 = unbounded).
+func (d *Dir) SetCapacity(n int) {
+	nw := d.link.net
+	nw.mu.Lock()
+	d.Plan.Capacity = n
+	fire(&d.ww)
+	nw.mu.Unlock()
+}
+
 // Tap returns a copy of every byte written into this direction so far.
 func (d *Dir) Tap() []byte {
 	n := d.link.net
